@@ -144,6 +144,17 @@ class SymBuilder(BuilderBase):
     self.inputs.append((name, "bool", v))
     return v
 
+  def bits(self, name, n):
+    """an n-bit flag word given by its bits: returns (value term, [bit terms]); the evaluator computes
+    masks and shifts of it bit by bit (linear), instead of through div/mod"""
+    bits = []
+    for i in range(n):
+      x = z3.Bool("%s.bit%d" % (name, i))
+      self.inputs.append(("%s.bit%d" % (name, i), "bool", x))
+      bits.append(z3.If(x, z3.IntVal(1), z3.IntVal(0)))
+    t = self.st.compose_bits(bits)
+    return t, bits
+
   def real(self, name, lo=None, hi=None):
     v = z3.Real(name)
     if lo is not None:
@@ -168,6 +179,20 @@ class SymBuilder(BuilderBase):
 
   def str(self, name, length=None, minlen=0, maxlen=None):
     return self.bytes(name, length, minlen, maxlen, True)
+
+  def short_text(self, name, maxlen, is_str=True, no_nul=True):
+    """text of every length 0..maxlen (maxlen small): a guarded union of fixed-length strings over one
+    byte function, so that every path works with concrete offsets; optionally without NUL characters"""
+    from . import sbytes as sb
+    from .values import Union
+    L = z3.Int(name + ".len")
+    self.st.add(z3.And(L >= 0, L <= maxlen))
+    f = z3.Function(name, z3.IntSort(), z3.IntSort())
+    self.inputs.append((name + ".len", "int", L))
+    self.inputs.append((name, "str" if is_str else "bytes", (f, L)))
+    for i in range(maxlen):
+      self.st.add(z3.And(f(i) >= (1 if no_nul else 0), f(i) <= 255))
+    return Union([(L == n, sb.SBytes([("blob", f, 0, n)], is_str)) for n in range(maxlen + 1)])
 
   def choice(self, name, options):
     """one of the given concrete values, selected by a fresh symbolic index (guarded union)"""
@@ -287,6 +312,10 @@ class ConcBuilder(BuilderBase):
     self.drawn[name] = v
     return v
 
+  def bits(self, name, n):
+    bits = [int(self.bool("%s.bit%d" % (name, i))) for i in range(n)]
+    return sum(x << i for i, x in enumerate(bits)), bits
+
   def real(self, name, lo=None, hi=None):
     if self.values is not None:
       v = float(self.values[name])
@@ -323,6 +352,13 @@ class ConcBuilder(BuilderBase):
 
   def str(self, name, length=None, minlen=0, maxlen=None):
     return self.bytes(name, length, minlen, maxlen, True)
+
+  def short_text(self, name, maxlen, is_str=True, no_nul=True):
+    while True:
+      s = self.bytes(name, None, 0, maxlen, is_str)
+      if self.values is not None or not no_nul:
+        return s
+      return s.replace("\0" if is_str else b"\0", "x" if is_str else b"x")
 
   def choice(self, name, options):
     i = self.int(name + ".sel", 0, len(options) - 1)
